@@ -956,3 +956,125 @@ func TestZZGovcReplay(t *testing.T) {
 	}
 }
 `
+
+// A failed obligation of the frame readers / writers gives a model over the byte-stream
+// ghost (rd_pos, rd_at, ...), which says which clause broke but is awkward to read back.
+// The replay instead searches a small, stated scope of concrete bodies on the REAL
+// decoders for an input that violates the statement of C07: every truncation offset of
+// an encoded three-message sequence (server side) and a handful of adversarial size
+// prefixes. Bounded search: it finds the failing input when one exists in that scope and
+// says so when not.
+const framingDriver = `package httpgrpc
+
+import (
+	"bytes"
+	"encoding/binary"
+	"io"
+	"io/ioutil"
+	"math"
+	"net/http"
+	"testing"
+
+	"google.golang.org/grpc/encoding"
+	grpcproto "google.golang.org/grpc/encoding/proto"
+	"google.golang.org/protobuf/types/known/wrapperspb"
+)
+
+func TestZZGovcReplay(t *testing.T) {
+	codec := encoding.GetCodec(grpcproto.Name)
+	defer func() {
+		if r := recover(); r != nil {
+			t.Fatalf("GOVC-REPLAY: VIOLATED the decoder panicked: %v", r)
+		}
+	}()
+	// --- the size preface alone, on every prefix of 4 bytes and on nothing
+	for n := 0; n <= 4; n++ {
+		raw := []byte{0x00, 0x00, 0x01, 0x02}[:n]
+		v, err := readSizePreface(bytes.NewReader(raw))
+		switch {
+		case n == 0 && err != io.EOF:
+			t.Errorf("GOVC-REPLAY: VIOLATED readSizePreface on an empty body = (%d, %v), want io.EOF", v, err)
+		case n > 0 && n < 4 && (err == nil || err == io.EOF):
+			t.Errorf("GOVC-REPLAY: VIOLATED readSizePreface on a body cut after %d of the 4 prefix bytes = (%d, %v): a cut prefix must be an error other than the clean end io.EOF", n, v, err)
+		case n == 4 && (err != nil || v != 258):
+			t.Errorf("GOVC-REPLAY: VIOLATED readSizePreface(00 00 01 02) = (%d, %v), want 258", v, err)
+		}
+	}
+	// --- what the writer produces is what the reader expects
+	for _, sz := range []int32{0, 1, 258, -1, -258, math.MaxInt32, math.MinInt32} {
+		var b bytes.Buffer
+		if err := writeSizePreface(&b, sz); err != nil || b.Len() != 4 || int32(binary.BigEndian.Uint32(b.Bytes())) != sz {
+			t.Errorf("GOVC-REPLAY: VIOLATED writeSizePreface(%d) wrote % x (err %v), want the 4-byte big-endian value", sz, b.Bytes(), err)
+		}
+	}
+	// --- a three-message request body, cut at every offset, through the real server stream
+	var body bytes.Buffer
+	var ends []int
+	msgs := []string{"", "one", "a longer second message"}
+	for _, m := range msgs {
+		if err := writeProtoMessage(&body, codec, wrapperspb.String(m), false); err != nil {
+			t.Fatalf("writeProtoMessage: %v", err)
+		}
+		ends = append(ends, body.Len())
+	}
+	full := body.Bytes()
+	for cut := 0; cut <= len(full); cut++ {
+		str := &serverStream{r: &http.Request{Body: ioutil.NopCloser(bytes.NewReader(full[:cut]))}, codec: codec, respStream: true}
+		whole := 0
+		for whole < len(ends) && ends[whole] <= cut {
+			whole++
+		}
+		onBoundary := cut == 0 || (whole > 0 && ends[whole-1] == cut)
+		got := 0
+		var last error
+		for {
+			var m wrapperspb.StringValue
+			last = str.RecvMsg(&m)
+			if last != nil {
+				break
+			}
+			if got >= len(msgs) || m.Value != msgs[got] {
+				t.Fatalf("GOVC-REPLAY: VIOLATED request body cut at %d of %d: message #%d decoded as %q, which was never sent", cut, len(full), got, m.Value)
+			}
+			got++
+		}
+		if got != whole {
+			t.Fatalf("GOVC-REPLAY: VIOLATED request body cut at %d of %d: %d messages delivered, %d whole frames were in the body", cut, len(full), got, whole)
+		}
+		if onBoundary && last != io.EOF {
+			t.Fatalf("GOVC-REPLAY: VIOLATED request body ending at the frame boundary %d ends with %v, want io.EOF", cut, last)
+		}
+		if !onBoundary && last == io.EOF {
+			t.Fatalf("GOVC-REPLAY: VIOLATED request body cut at %d of %d (inside a frame) is reported as a clean end of stream (io.EOF) after %d messages", cut, len(full), got)
+		}
+	}
+	// --- adversarial size prefixes: rejected, nothing fabricated, nothing read beyond the prefix
+	for _, sz := range []int32{-1, math.MinInt32, math.MaxInt32, int32(maxMessageSize) + 1} {
+		rd := bytes.NewReader([]byte{1, 2, 3})
+		var m wrapperspb.StringValue
+		err := readProtoMessage(rd, codec, sz, &m)
+		if err == nil {
+			t.Errorf("GOVC-REPLAY: VIOLATED readProtoMessage accepted the size %d and decoded %q", sz, m.Value)
+		}
+	}
+	// --- a payload shorter than its prefix is an error and is not decoded
+	for short := 0; short < 5; short++ {
+		payload, _ := codec.Marshal(wrapperspb.String("abc"))
+		var m wrapperspb.StringValue
+		err := readProtoMessage(bytes.NewReader(payload[:short]), codec, int32(len(payload)), &m)
+		if err == nil || err == io.EOF && short > 0 {
+			t.Errorf("GOVC-REPLAY: VIOLATED readProtoMessage with %d of %d payload bytes = %v (decoded %q), want an error that is not the clean end", short, len(payload), err, m.Value)
+		}
+	}
+}
+`
+
+func init() {
+	for _, unit := range []string{"httpgrpc.readSizePreface", "httpgrpc.writeSizePreface", "httpgrpc.readProtoMessage", "httpgrpc.writeProtoMessage", "httpgrpc.(*serverStream).RecvMsg"} {
+		replayDrivers[unit] = func(cc *checkCtx, rec *obRecord, f *Failure) map[string]interface{} {
+			res := map[string]interface{}{"attempted": false}
+			res["inputs"] = map[string]interface{}{"scenario": "bounded search on the real frame readers/writers: every truncation offset of a three-message request body through serverStream.RecvMsg, every prefix of a size preface, adversarial sizes, short payloads"}
+			return runDriver(cc, modulePath+"/httpgrpc", framingDriver, res)
+		}
+	}
+}
